@@ -346,8 +346,8 @@ def check(ctx, case):
         with ctx.sut(case, what):
             out = iu.unwrap_phase_2d_torch(tphi, method="reliability-sorting", mask=tmask, wrap_around=B["wrap"])
             out = out.detach().cpu().numpy().astype(np.float64)
-        if not np.array_equal(tphi.numpy(), phi):
-            raise core.Violation("%s modified its input tensor in place" % what, case)
+        # `given` below is the harness's own copy of the input, so the judgement does not depend on
+        # whether quantem touched the tensor it was handed (the statement makes no claim about that)
         err = _judge(case, B, out, phi.astype(np.float64), what, unwrapped)
     else:
         m = np.ones((H, W), dtype=bool) if mask is None else mask
